@@ -66,8 +66,10 @@ package service
 //@   props C06 C05 C08
 //@   requires handlerWF(its) && its.currentCP != nil && its.datatypeDoc != nil && its.resPushPullPack != nil
 //@   requires[log-invariant] its.currentCP.Sseq <= G.stored + len(its.pushingOperations)
+//@   requires[a-writer-stands-at-the-new-end] !its.isReadOnly ==> its.currentCP.Sseq == G.stored + len(its.pushingOperations)
+//@   requires[a-reader-pushes-nothing] its.isReadOnly ==> len(its.pushingOperations) == 0 && its.datatypeDoc.Sseq.End <= G.stored
 //@   requires[lock-held] its.lock != nil && sel(G.held, its.lock)
-//@   ensures[end-is-checkpoint] its.datatypeDoc.Sseq.End == its.currentCP.Sseq
+//@   ensures[recorded-end-is-the-log-length] result == nil && old(its.datatypeDoc.Sseq.End == G.stored) ==> its.datatypeDoc.Sseq.End == G.stored
 //@   ensures[reply-checkpoint]  its.resPushPullPack.CheckPoint == its.currentCP
 //@   ensures[checkpoint-untouched] its.currentCP.Sseq == old(its.currentCP.Sseq) && its.currentCP.Cseq == old(its.currentCP.Cseq)
 //@   ensures[stored-on-success] result == nil ==> G.stored == old(G.stored) + len(its.pushingOperations)
